@@ -225,6 +225,16 @@ pub fn run(args: &Args) -> i32 {
     strings.push("a\nb ".to_string());
     strings.push("trailing\n\n\n".to_string());
     strings.push("  indented first line\nsecond\n".to_string());
+    // long strings whose blanks come in runs (a folded scalar may only break at a blank and must keep the others), with runs
+    // falling on and around the folding column
+    for run in [2usize, 3, 5] {
+        let gap = " ".repeat(run);
+        strings.push(format!("word{gap}").repeat(30));
+        strings.push(format!("w{gap}xy{gap}z ").repeat(25));
+        for lead in [70usize, 76, 77, 78, 79, 80, 81, 82] {
+            strings.push(format!("{}{gap}tail words go on and on for a while so that the line is folded again{gap}end", "a".repeat(lead)));
+        }
+    }
     // strings of blanks / line breaks only, short and beyond the folding width
     for n in [1usize, 2, 3, 5, 81, 90] {
         strings.push("\n".repeat(n));
